@@ -20,7 +20,7 @@ import (
 	"verif/internal/prog"
 )
 
-const traceSet = "openat,open,creat,write,pwrite64,lseek,close,dup,dup2,dup3,fcntl,renameat,renameat2,rename,unlinkat,unlink,rmdir,mkdirat,mkdir,ftruncate,fallocate,fsync,fdatasync,getdents64"
+const traceSet = "openat,open,creat,write,pwrite64,lseek,close,dup,dup2,dup3,fcntl,renameat,renameat2,rename,unlinkat,unlink,rmdir,mkdirat,mkdir,ftruncate,fallocate,fsync,fdatasync,getdents64,execve"
 
 // InfraError marks a problem of the machinery (strace missing, emulator self-check failed): exit 2, never a violation.
 type InfraError struct{ Msg string }
@@ -97,6 +97,9 @@ func Run(p *prog.Program, work string, maxStr int, preload func(root string) err
 		} else {
 			return nil, &InfraError{"strace failed: " + werr.Error()}
 		}
+	}
+	if t.Exit == 6 {
+		return nil, &InfraError{"the runner could not restart itself: " + t.Stderr}
 	}
 	f, err := os.Open(logp)
 	if err != nil {
